@@ -47,8 +47,14 @@ def bounds(tier):
             'corpus': len(corpus.queries())}
 
 
+KS = {'k9': '9', 'k1a': '1a', 'k10': '10', 'k2': '2', 'kx': 'x', 'k01': '01', 'kneg': '-5', 'k1e1': '1e1'}
+
+
 def jail_tree():
-    return {'work': D(corpus.corpus_tree())}
+    t = corpus.corpus_tree()
+    # one file per directory: the order of the roots is the arrival order of the rows
+    t['ks'] = D({d: D({n: F(len(n))}) for d, n in KS.items()})
+    return {'work': D(t)}
 
 
 # ------------------------------------------------------------------ labelled malformations
@@ -113,6 +119,13 @@ def labelled():
             for lim in ('', ' limit 1', ' limit 2', ' limit 3', ' limit 100'):
                 out.append((['name, %s from . order by 2%s%s' % (key, tail, lim)], 'nan-sort-key', None))
                 out.append((['name from . order by %s%s, name%s' % (key, tail, lim)], 'nan-sort-key', None))
+    # sort keys that are numbers for some rows and text for others, in every arrival order, with every small LIMIT
+    for n in (3, 4):
+        for perm in itertools.permutations(sorted(KS), n):
+            frm = ', '.join('ks/' + d for d in perm)
+            for lim in range(1, n):
+                for tail in ('', ' desc'):
+                    out.append((['name from %s order by name%s limit %d' % (frm, tail, lim)], 'mixed-sort-key', None))
     return out
 
 
